@@ -17,10 +17,16 @@ LettersGen == {El("H", 1, 1), El("H", 2, 1), El("H", 3, 1), El("P", 2, 1), El("P
                El("L", 3, 3), El("T", 4, 4), El("I", 1, 1), NP}
 
 \* wide alphabet for -simulate: all heading levels, all size classes, images
-\* without description, single-item lists
+\* without description, single-item lists, a list that is larger than a small
+\* maximum chunk size (70 items)
 LettersWide == {El("H", lv, 1) : lv \in 1..6} \cup {El("P", c, 1) : c \in 1..4}
-               \cup {El("L", 1, 1), El("L", 3, 3), El("L", 5, 5), El("T", 2, 2), El("T", 6, 6),
+               \cup {El("L", 1, 1), El("L", 3, 3), El("L", 5, 5), El("L", 70, 70), El("T", 2, 2), El("T", 6, 6),
                      El("I", 1, 1), El("I", 0, 0), NP}
+
+\* lists and what can introduce them: one-word and normal paragraphs (rendered as
+\* list introductions when a list follows), a small list and one that exceeds a
+\* small maximum chunk size
+LettersLists == {El("H", 1, 1), El("P", 1, 1), El("P", 2, 1), El("L", 3, 3), El("L", 70, 70), NP}
 
 \* a document the layout-based rag.Chunker can be given without loss: only
 \* headings, paragraphs and lists, and on every page headings first, then
